@@ -308,7 +308,10 @@ def run_lazy(ops, lf, cu, client, err_kind, pickle=False):
     if k == 'mk':
       thunk = lambda: ev(lf.trace(S.CLASSES[op['cls']])(*[S.pv(a) for a in op['args']], lazy_result_=True))
     elif k == 'clear':
-      lf.clear_cache()
+      if remote:
+        client.clear_cache().result(timeout=30)     # the courier method `clear_cache`, as a client reaches it
+      else:
+        lf.clear_cache()
       ob = {'val': None}
     elif h is None:
       ob = {'skip': True}
@@ -362,6 +365,47 @@ class _Key:
     return hash(self.k)
 
 
+def twin_chain(lru, root, x0, links):
+  """`x0.<links>` by ordinary Python; links marked cache_result go through the textbook LRU `lru`."""
+  from harness.core import jdump
+  # `x0.<links>` is ONE nested expression: link n applied to the sub-expression `x0.<links[:n-1]>`.  An expression is
+  # evaluated from the OUTSIDE: a cached expression is looked up first; on a hit it is the stored object and its
+  # sub-expressions are not evaluated at all (so they are neither looked up nor refreshed in the LRU); on a miss the
+  # sub-expression is evaluated (recursively, with its own look-ups and insertions), the link is applied and the
+  # result is stored LAST.  With a small bound the order matters: the inner cached link is inserted before the
+  # outer one, so the outer one is the most recent entry (an inside-out loop over the links looks the inner link up
+  # first and, at capacity 1, evicts the outer entry a hit on which would have made the inner look-up unnecessary).
+  paths, path = [], ()
+  for l in links:
+    path = path + (jdump({k: l[k] for k in ('l', 'name', 'key', 'args') if k in l}),)
+    paths.append(path)
+
+  def ev(n):
+    if n == 0:
+      return x0
+    l = links[n - 1]
+    if l.get('cache'):
+      hit, v = lru.get(_Key(root, paths[n - 1]))
+      if hit:
+        return v
+    x = ev(n - 1)
+    if isinstance(x, _Held):
+      x = x.obj                    # a lazy result in the middle of an expression is the object itself
+    if l['l'] == 'attr':
+      y = getattr(x, l['name'])
+    elif l['l'] == 'item':
+      y = x[S.pv(l['key'])]
+    else:
+      y = x(*[S.pv(a) for a in l['args']])
+    if l.get('lazy'):
+      y = _Held(y)
+    if l.get('cache'):
+      lru.put(_Key(root, paths[n - 1]), y)
+    return y
+
+  return ev(len(links))
+
+
 def run_twin(ops, fn_max, err_kind):
   """Ordinary Python on ordinary objects.  A link marked cache_result is looked up in a textbook LRU of capacity
   `fn_max` keyed by (object, links so far): a hit returns the stored object, a miss evaluates and stores — written
@@ -371,29 +415,8 @@ def run_twin(ops, fn_max, err_kind):
   vars_, obs = [], []
   lru = lib_c17.RefLRU(fn_max)
 
-  def chain(root, x, links):
-    path = ()
-    for l in links:
-      path = path + (jdump({k: l[k] for k in ('l', 'name', 'key', 'args') if k in l}),)
-      if l.get('cache'):
-        hit, v = lru.get(_Key(root, path))
-        if hit:
-          x = v
-          continue
-      if isinstance(x, _Held):
-        x = x.obj                    # a lazy result in the middle of an expression is the object itself
-      if l['l'] == 'attr':
-        y = getattr(x, l['name'])
-      elif l['l'] == 'item':
-        y = x[S.pv(l['key'])]
-      else:
-        y = x(*[S.pv(a) for a in l['args']])
-      if l.get('lazy'):
-        y = _Held(y)
-      if l.get('cache'):
-        lru.put(_Key(root, path), y)
-      x = y
-    return x
+  def chain(root, x0, links):
+    return twin_chain(lru, root, x0, links)
 
   for op in ops:
     k = op['op']
